@@ -30,7 +30,7 @@ ASSUMPTIONS.update({
     "next": "Iterator::next on vec::IntoIter pops the first remaining element",
     "vm_take": "std::mem::take leaves an empty Vec and returns the old contents",
 })
-LEMMAS = {"lemma_owners_push": {"C06"}, "lemma_owners_push_b": {"C06"}}
+LEMMAS = {"lemma_owners_push": {"C06"}, "lemma_owners_push_b": {"C06"}, "lemma_needed_push": {"C06", "C21"}, "lemma_needed_push_b": {"C06", "C21"}}
 UNVERIFIED = {
     "C06": ["that every arm of eval_expr preserves frame_inv (the dispatch at eval.rs:6404-6590 and eval_if / eval_while_body / eval_for_in / eval_match_cases); only eval_block, eval_break and eval_continue are under contract",
             "`return` (clears the pending expressions and discards the frame)",
@@ -66,7 +66,7 @@ impl Bindings {
 TOPLEN = "old(env).stack.0@.len() >= 1"
 FRAME = "others_unchanged(*old(env), *final(env))"
 
-BU = "broadcast use owner_model::lemma_owners_push_b;"
+BU = "broadcast use owner_model::lemma_owners_push_b, needed_model::lemma_needed_push_b;"
 
 WITNESSES = [
     {"match": r"eval_break\.", "kind": "run-file", "props": ["C06"],
@@ -119,21 +119,31 @@ def build(tier):
     LOOP_INV = [
         ("stack", "old(env).stack.0@.len() >= 1, env.stack.0@.len() == old(env).stack.0@.len(), env.stack.0@.drop_last() == old(env).stack.0@.drop_last()"),
         ("blocks_accounted", "base(top(*env)) == base(top(*old(env))), base(top(*old(env))) >= 1"),
+        ("values_accounted", "free_vals(top(*env)) == free_vals(top(*old(env)))", {"C06", "C21"}),
     ]
     u.add_fn(EV, "eval_break", rules=[rc], contract=Contract(
         requires=[("nonempty", TOPLEN), ("base", "base(top(*old(env))) >= 1"), ("for_values", "for_values_present(top(*old(env)))")],
         ensures=[("blocks_accounted", "base(top(*final(env))) == base(top(*old(env)))"),
-                 ("others", FRAME)],
+                 ("others", FRAME),
+                 # the Unit that break pushes stands for the value of the loop it leaves: pushed exactly when that loop's value is used
+                 ("loop_value_pushed_iff_the_loop_uses_it",
+                  "top(*final(env)).exprs_to_eval@.len() > 0 ==> free_vals(top(*final(env))) == free_vals(top(*old(env))) + (if top(*final(env)).exprs_to_eval@.last().1.value_is_used { 1int } else { 0int })", {"C06", "C21"}),
+                 ("break_outside_a_loop_pushes_its_own_value",
+                  "top(*final(env)).exprs_to_eval@.len() == 0 ==> free_vals(top(*final(env))) == free_vals(top(*old(env))) + (if expr_value_is_used { 1int } else { 0int })", {"C06", "C21"})],
         body_prelude=BU,
         loops={1: dict(body_prelude=BU,
                        invariant=LOOP_INV,
-                       invariant_except_break=[("for_values", "for_values_present(top(*env))")],
+                       invariant_except_break=[("for_values", "for_values_present(top(*env))"),
+                                               ("no_loop_found_yet", "value_is_used == expr_value_is_used", {"C06", "C21"})],
+                       ensures=[("the_loop_decides", "(top(*env).exprs_to_eval@.len() == 0 && value_is_used == expr_value_is_used)"
+                                                     " || (top(*env).exprs_to_eval@.len() > 0 && value_is_used == top(*env).exprs_to_eval@.last().1.value_is_used)", {"C06", "C21"})],
                        decreases="top(*env).exprs_to_eval@.len()")},
         props=c06, safety_props=both))
     u.add_fn(EV, "eval_continue", contract=Contract(
         requires=[("nonempty", TOPLEN), ("base", "base(top(*old(env))) >= 1"), ("for_values", "for_values_present(top(*old(env)))")],
         ensures=[("blocks_accounted", "base(top(*final(env))) == base(top(*old(env)))"),
-                 ("others", FRAME)],
+                 ("others", FRAME),
+                 ("values_accounted", "free_vals(top(*final(env))) == free_vals(top(*old(env)))", {"C06", "C21"})],
         body_prelude=BU,
         loops={1: dict(body_prelude=BU, invariant=LOOP_INV,
                        invariant_except_break=[("for_values", "for_values_present(top(*env))")],
